@@ -93,7 +93,7 @@ def teardown():
 FLAKY = "delay::tests::shared_smoke"
 
 def suite_passes():
-    rc, o = sh("cargo test --offline --lib -q 2>&1", cwd=WT, timeout=400)
+    rc, o = sh("cargo test --offline --lib -q 2>&1", cwd=WT, timeout=150)
     if rc == 124:
         return False, "lib tests hang"
     failed = [l for l in o.split("\n") if re.match(r"^test .* FAILED|^\s+\S+ .*panicked|^    [a-z_:]+$", l)]
